@@ -640,8 +640,13 @@ func (m *RpcServer) ControlEnvironment(cxt context.Context, req *pb.ControlEnvir
 		// the error of the requested transition is what the caller must get, whatever happens to the GO_ERROR
 		goErrorErr := env.TryTransition(environment.NewGoErrorTransition(m.state.taskman))
 		if goErrorErr != nil {
-			log.WithField("partition", env.Id()).Warnf("could not complete requested GO_ERROR transition, forcing move to ERROR: %s", goErrorErr.Error())
-			env.Sm.SetState("ERROR")
+			if env.CurrentState() == "DONE" {
+				// the environment was torn down while this request was waiting for its turn: DONE is terminal
+				log.WithField("partition", env.Id()).Warnf("could not complete requested GO_ERROR transition, environment is DONE: %s", goErrorErr.Error())
+			} else {
+				log.WithField("partition", env.Id()).Warnf("could not complete requested GO_ERROR transition, forcing move to ERROR: %s", goErrorErr.Error())
+				env.Sm.SetState("ERROR")
+			}
 		}
 	}
 
